@@ -180,8 +180,8 @@ def run_hyp(facet, tally, tier, seed, shard, nshards):
     from hypothesis import given, settings, HealthCheck, Phase
     n = max(1, facet.budget[tier] // nshards)
     strat = facet.strategy(tier)
-    suppress = [HealthCheck.too_slow] if facet.suppress_too_slow else []
-    suppress.append(HealthCheck.data_too_large)
+    # too_slow is a wall-clock health check: under machine load it would turn slowness into a harness error
+    suppress = [HealthCheck.too_slow, HealthCheck.data_too_large]
     mask = set()
     for rnd_no in range(4):
         state = {"fail": None}
